@@ -82,6 +82,14 @@ pub assume_specification<T> [<[T]>::clone_from_slice] (dst: &mut [T], src: &[T])
     requires old(dst)@.len() == src@.len(),
     ensures final(dst)@.len() == old(dst)@.len(),
         forall|i: int| 0 <= i < src@.len() ==> cloned::<T>(src@[i], #[trigger] final(dst)@[i]);
+// Option::filter: "Returns None if the option is None, otherwise calls predicate with the wrapped value and returns Some(t) if
+// predicate returns true, None if it returns false"
+pub assume_specification<T, P: FnOnce(&T) -> bool> [Option::<T>::filter] (o: Option<T>, p: P) -> (r: Option<T>)
+    requires o is Some ==> call_requires(p, (&o->Some_0,)),
+    ensures match o {
+        None => r is None,
+        Some(v) => (r == Some(v) && call_ensures(p, (&v,), true)) || (r is None && call_ensures(p, (&v,), false)),
+    };
 // ---- stun-rs/src/error.rs : diagnostics text and boxed causes are opaque; the error *type* is kept
 pub struct FmtString;
 #[verifier::external_body]
